@@ -52,6 +52,13 @@ def run_witness(prop, tier):
             except Exception:
                 pass
     if last is None:
+        if p.returncode is not None and p.returncode < 0:
+            # the witness process was killed by a signal while executing the real code (stack overflow, abort): the code under test
+            # did not come back with a verdict on some witness input - reported as a failing witness, the input is not known
+            return {'cases': 1, 'failing': [{'id': 'witness-process-killed', 'input': {'signal': -p.returncode},
+                                             'expected': 'the witness run completes',
+                                             'observed': (p.stderr or '')[-600:]}],
+                    'replay_cmd': 'cd /verif && ./check %s --witness-only' % prop}
         return {'error': 'witness produced no result (rc=%s): %s' % (p.returncode, (p.stderr or '')[-1500:]),
                 'cases': 0, 'failing': []}
     last['replay_cmd'] = 'cd /verif && ./check %s --witness-only' % prop
